@@ -1,10 +1,105 @@
-import ChythonModel.Model.Cache
+import ChythonModel.Proofs.C13Step
+/-!
+# C13 — edits keep derived views coherent; transactions atomic; copies independent
+
+All theorems are about `Model.C13.step`, the function the driver runs: it executes the event lists regenerated from the
+source (`Gen/CacheEffects.lean`) through `interp`.  The theorems quantify over **all tables** `T` accepted by the
+decidable static analysis `TablesOK` (proved sound for the interpreter in `Proofs/C13*.lean`), over all molecules,
+all operation histories and all resolutions `obs` of data-dependent reads; `tables_ok_current` discharges the
+analysis on today's regenerated table by kernel evaluation.  A change of the code that drops a flush, widens a keep
+list, forgets a slot in `copy`, … regenerates a table on which `tables_ok_current` no longer evaluates to `true`.
+-/
 namespace ChythonModel.Props.C13
 open ChythonModel.Model ChythonModel.Model.C13 ChythonModel.Gen.CacheEffects ChythonModel.Spec.Deps
+open ChythonModel.Proofs.C13
+
+/-! ## the regenerated table passes the analysis -/
+
+theorem tables_ok_current : TablesOK current = true := by decide +kernel
 
 /-- the keep lists of `flush_cache` and `copy` only name keys of the kind they are documented to preserve -/
 theorem keep_lists_within_kinds :
     (∀ k ∈ flushKeepSssr, kindOf k = .skel) ∧ (∀ k ∈ flushKeepComponents, kindOf k = .conn) ∧
     (∀ k ∈ copyKeepSssr, kindOf k = .skel) ∧ (∀ k ∈ copyKeepComponents, kindOf k = .conn) := by decide
+
+/-- ring / component values are computed from ring / component values and the adjacency only (regenerated dependency graph) -/
+theorem adjacency_kinds_closed :
+    ∀ k ∈ skelKeys ++ connKeys, (∀ d ∈ closure keyReads k, kindOf d ≠ .full) ∧
+      (∀ r ∈ (keyRaw.lookup k).getD ["?"], r ∈ adjOnlyRaw) := by decide +kernel
+
+/-! ## histories -/
+
+/-- run a history (operation, observed `__dict__` keys after it) -/
+def runHist (T : Tables) : World → List (Op × List String) → World
+  | w, [] => w
+  | w, (op, obs) :: rest => runHist T (step T w op obs).w rest
+
+/-- a history inside the property's domain: every step satisfies `stepPre` and either succeeds or is refused by a guard
+that leaves the world untouched (Python raised before mutating anything) -/
+def admissible (T : Tables) : World → List (Op × List String) → Bool
+  | _, [] => true
+  | w, (op, obs) :: rest =>
+    stepPre T w op && (((step T w op obs).err.isNone) || decide ((step T w op obs).w = w)) &&
+      admissible T (step T w op obs).w rest
+
+/-- **coherent_step**: one public operation preserves the invariant of every object: no stale ring / component value
+ever, no stale value at all outside a transaction, backup snapshots coherent, both transaction slots assigned. -/
+theorem coherent_step {T : Tables} (hT : TablesOK T = true) {w : World} {op : Op} {obs : List String} (hw : WInv w)
+    (hp : stepPre T w op = true) (herr : (step T w op obs).err = none) : WInv (step T w op obs).w :=
+  step_inv hT hw (stepPre_iff hp) herr
+
+/-- **coherent_reachable**: induction over operation lists. -/
+theorem coherent_reachable {T : Tables} (hT : TablesOK T = true) :
+    ∀ (h : List (Op × List String)) (w : World), WInv w → admissible T w h = true → WInv (runHist T w h) := by
+  intro h
+  induction h with
+  | nil => intro w hw _; exact hw
+  | cons x rest ih =>
+    intro w hw ha
+    obtain ⟨op, obs⟩ := x
+    simp only [admissible, Bool.and_eq_true, Bool.or_eq_true, decide_eq_true_eq] at ha
+    simp only [runHist]
+    apply ih _ _ ha.2
+    rcases ha.1.2 with he | he
+    · exact coherent_step hT hw ha.1.1 (by simpa using he)
+    · rw [he]; exact hw
+
+/-- a molecule as the constructor / a parser leaves it satisfies the invariant -/
+theorem fresh_world_inv (m : Mol) : WInv (freshWorld m) := by
+  intro o ho
+  simp only [freshWorld, List.mem_singleton] at ho
+  subst ho
+  exact inv_emptyCache rfl (by simp [freshObj]) rfl
+
+/-- **Main statement for today's code**: after any admissible history from any molecule, every memoised value of every
+object outside a transaction equals the value computed now (`coherent`), and inside a transaction every ring and
+component value does. -/
+theorem reachable_cache_coherent (m : Mol) (h : List (Op × List String)) (ha : admissible current (freshWorld m) h = true) :
+    ∀ o ∈ (runHist current (freshWorld m) h).objs,
+      (o.backup = some none → coherent o.toCore = true) ∧
+      (∀ e ∈ o.cache, kindOf e.key ≠ .full → e.fresh o.toCore = true) := by
+  intro o ho
+  have hinv := coherent_reachable tables_ok_current h _ (fresh_world_inv m) ha o ho
+  refine ⟨fun hb => ?_, fun e he hk => ?_⟩
+  · rw [coherent_iff]
+    intro e he
+    cases hk : kindOf e.key with
+    | skel => exact hinv.skel e he hk
+    | conn => exact hinv.conn e he hk
+    | full => exact hinv.full hb e he hk
+  · cases hk' : kindOf e.key with
+    | skel => exact hinv.skel e he hk'
+    | conn => exact hinv.conn e he hk'
+    | full => exact absurd hk' hk
+
+/-- **transfer to real derived functions**: if a derived function respects the dependency discipline of `Spec/Deps.lean`
+(its value is determined by the view its key may depend on), then a fresh entry stands for the value computed now. -/
+theorem transfer {V : Type} (derive : String → Core → V)
+    (hframe : ∀ k c c', viewOf (kindOf k) c = viewOf (kindOf k) c' → derive k c = derive k c')
+    (e : Entry) (c0 c : Core) (hsnap : e.val = viewOf (kindOf e.key) c0) (hfresh : e.fresh c = true) :
+    derive e.key c0 = derive e.key c := by
+  apply hframe
+  simp [Entry.fresh] at hfresh
+  rw [← hsnap, hfresh.2]
 
 end ChythonModel.Props.C13
